@@ -107,6 +107,8 @@ func init() {
 			ruleReplayCountsEveryMutation(r)
 			ruleReplayClosesPerFile(r)
 			ruleStagingNameRecognised(r)
+			// (what is left of the log after a kill in the middle of its removal must be a suffix, never a prefix)
+			ruleWalRemovalOrder(r)
 		})
 }
 
